@@ -145,7 +145,7 @@ def dispatch(c):
             times = np.arange(rows) * (c["T"] / rows)
             sol = solve_ivp(f, (0.0, c["T"]), [y0[v] for v in svars], t_eval=times, rtol=1e-11, atol=1e-13, method="DOP853", max_step=c["dt"])
             ref = {v: sol.y[i] for i, v in enumerate(svars)}
-            tol = dict(rtol=2e-5, atol=2e-7)
+            tol = dict(rtol=2e-4, atol=2e-6)       # piecewise-linear inputs have kinks: the tested solver is not forced onto them
         for key, path in outputs.items():
             got = np.asarray(df[key], dtype=float).reshape(len(df.index), -1)[:, 0]
             want = ref[path]
